@@ -147,6 +147,28 @@ func c18Body(c *Ctx) {
 			}
 		}
 	}
+	// enforcement is armed for every declared length, including 0
+	nb := c.fn(h3, "", "newBody")
+	for _, in := range findInstrs(nb, StoresTo(hasCL)) {
+		site := in
+		c.Check(isConstBool(in.(*ssa.Store).Val, true), R, "shape:hasContentLength=true", c.P.InstrPos(in), "armed")
+		c.cut(R, "guard:Content-Length enforcement armed iff contentLength >= 0", &Cut{Fn: nb, Target: func(i ssa.Instruction) bool { return i == site },
+			Edge: EdgeRel(Rel{Op: token.GEQ, X: ParamV("contentLength"), Y: ConstI(0)}, false)}, "a declared length of 0 is enforced too (-1 means undeclared)")
+		c.cut(R, "guard:every declared length arms enforcement", &Cut{Fn: nb, Target: isReturn, Barrier: func(i ssa.Instruction) bool { return i == site },
+			Edge: EdgeRel(Rel{Op: token.LSS, X: ParamV("contentLength"), Y: ConstI(0)}, false)}, "only the undeclared (-1) case skips arming")
+	}
+	c.Floor(R, "hasContentLength stores in newBody", countInstr(nb, StoresTo(hasCL)), 1)
+	// the length enforced on a response is the one parsed from its headers, before any cosmetic rewrite
+	rr := c.fn(h3, "RequestStream", "ReadResponse")
+	upd := c.obj(h3, "", "updateResponseFromHeaders")
+	nrb := c.obj(h3, "", "newResponseBody")
+	respCL := c.fld("net/http", "Response", "ContentLength")
+	c.Floor(R, "newResponseBody calls", countInstr(rr, CallsTo(nrb)), 1)
+	for _, in := range findInstrs(rr, CallsTo(nrb)) {
+		c.Check(Load(respCL)(in.(ssa.CallInstruction).Common().Args[1]), R, "origin:response body limit = parsed Content-Length", c.P.InstrPos(in), "the enforced length is the response's Content-Length")
+	}
+	c.cut(R, "order:response body limit taken before Content-Length is rewritten", &Cut{Fn: rr, Start: CallsTo(upd), Target: StoresTo(respCL), Barrier: CallsTo(nrb)},
+		"no store to Response.ContentLength happens between parsing the headers and fixing the body limit (the 1xx/204/CONNECT rewrite to 0 is cosmetic)")
 	ck := c.fn(h3, "body", "checkContentLengthViolation")
 	msgErr := c.konst(h3, "ErrCodeMessageError")
 	c.Check(constInt(msgErr) == 0x10e, R, "const:H3_MESSAGE_ERROR==0x10e", "-", "RFC 9114 §8.1")
@@ -312,6 +334,10 @@ func c18Frames(c *Ctx) {
 
 	// handler under recover
 	hrs := c.fn(h3, "RawServerConn", "handleRequestStream")
+	flush := c.obj(h3, "responseWriter", "Flush")
+	flushTr := c.obj(h3, "responseWriter", "flushTrailers")
+	c.cut(R, "order:response flushed before trailers", &Cut{Fn: hrs, Target: CallsTo(flushTr), Barrier: CallsTo(flush)}, "trailers are only sent after the header and body were flushed (a trailer section before HEADERS is not a response)")
+	c.Floor(R, "flushTrailers calls in handleRequestStream", countInstr(hrs, CallsTo(flushTr)), 1)
 	found, guarded := 0, 0
 	for _, f := range withAnon(hrs) {
 		eachInstr(f, func(i ssa.Instruction) {
